@@ -345,6 +345,21 @@ pub fn codec_vectors(out: &mut dyn Write, tier: &str, seed: u64) -> J {
             }
         }
     }
+    // characters beyond the basic plane whose low 16 bits look like ISO-8859-1 (U+10041, U+200E9, ...), and scalars from everywhere
+    for plane in 1u32..=0x10 {
+        for low in [0x41u32, 0x61, 0x7E, 0xE9, 0xFF, 0x2E, 0x20, 0x00] {
+            if let Some(c) = char::from_u32((plane << 16) | low) {
+                for st in [format!("{}", c), format!("A{}.TXT", c), format!("AB.{}", c), format!("{}{}", c, c)] {
+                    emit(sfn_rec(&st), out, &mut n);
+                }
+            }
+        }
+    }
+    for _ in 0..(if quick { 300 } else { 20000 }) {
+        if let Some(c) = char::from_u32(rng.next() as u32 % 0x11_0000) {
+            emit(sfn_rec(&format!("X{}", c)), out, &mut n);
+        }
+    }
     // full 8.3 names made of upper-half characters (two UTF-8 bytes each): every mix of ASCII / upper half over the 11 places
     for mask in 0u32..2048 {
         if quick && mask % 5 != 0 && mask != 2047 && mask.count_ones() < 10 {
